@@ -2084,3 +2084,26 @@ package ecs
 //@   props C08 C03
 //@   requires len(s.Archetype) < 2147483647
 //@   ensures int(n) == len(s.Archetype)
+
+// ---------------------------------------------------------------------------------------------
+// C16 — layout tables cover every registered ID: when a registration crosses a chunk boundary every table of every
+// active node is extended, pooled (retired, reusable) relation tables included - Activate never resizes a reused table.
+// archetype.ExtendLayouts is part of the unsafe storage layer (assumed); the node loop is proved, for one arbitrary
+// slot (anyTable, a skolem index: the proof holds for every value of it, i.e. for all slots).
+//@ uf anyTable(a *archNode) int32
+//@ func archetype.ExtendLayouts(a, count)
+//@   flag trusted
+//@   requires a.archetypeData != nil
+//@   ensures len(a.archetypeData.layouts) >= count
+//@   modifies a.archetypeData.layouts, a.archetypeAccess.basePointer
+//@ func archNode.ExtendArchetypeLayouts(a, count)
+//@   props C16
+//@   requires a.nodeData != nil && (a.IsActive && !a.HasRelation ==> a.nodeData.archetype != nil && a.nodeData.archetype.archetypeData != nil)
+//@   requires forall k int32 :: {pgArch(&a.nodeData.archetypes, k)} 0 <= k && k < a.nodeData.archetypes.len ==> pgArch(&a.nodeData.archetypes, k).archetypeData != nil
+//@   flag noframe
+//@   modifies all(archetypeData.layouts), all(archetypeAccess.basePointer)
+//@   ensures[single] a.IsActive && !a.HasRelation ==> len(a.nodeData.archetype.archetypeData.layouts) >= count
+//@   ensures[every] a.IsActive && a.HasRelation && 0 <= anyTable(a) && anyTable(a) < a.nodeData.archetypes.len ==> len(pgArch(&a.nodeData.archetypes, anyTable(a)).archetypeData.layouts) >= count
+//@   loop #1
+//@   inv 0 <= j && lenArches == a.nodeData.archetypes.len
+//@   inv 0 <= anyTable(a) && anyTable(a) < j ==> len(pgArch(&a.nodeData.archetypes, anyTable(a)).archetypeData.layouts) >= count
